@@ -186,6 +186,7 @@ def c06(A, ctx, tier):
     formulas.r_sib(A, ctx, dict(floor=40))
     formulas.r_deriv(A, ctx, dict(floor=18))
     formulas.r_istep(A, ctx, dict(floor=5))
+    penalgebra.r_red(A, ctx, dict(floor=3), rule="R-SIB-GROUP", parts=("group",))
     ctx.assume("value() is compared with its own derivatives and siblings, not with the "
                "docstring formula (parsing maths out of prose would be a text match)")
     ctx.assume("Cox risk-set recursions (_B_dot_vec, ...) are opaque operators: only the "
